@@ -105,11 +105,4 @@ func buildSocialCallbacks(w *world, cfg J) (pub.SocialWrappedCallbacks, []interf
 	return wr, buildOther(w, false, cfg)
 }
 
-// placeholders filled in by later runners
-type scheduler struct{}
-
-func (s *scheduler) yield(name string)  {}
-func (s *scheduler) acquire(k string)   {}
-func (s *scheduler) release(k string)   {}
-
 func newBundledTransport(w *world) pub.Transport { return fakeTransport{w} }
